@@ -40,6 +40,11 @@ namespace BitSerializer::Detail
 			return true;
 		}
 
+		if (pos != mStreamPos)
+		{
+			// The final short read leaves eofbit|failbit set, which would make any seekg() fail
+			mStream.clear();
+		}
 		if (pos == mStreamPos || !mStream.seekg(static_cast<std::streamoff>(pos)).fail())
 		{
 			mStreamPos = pos;
